@@ -1,8 +1,9 @@
 """C14 — bindings deliver messages and relay state intact and inert: correspondence harness.
 
 Real code exercised: saml2.pack (http_form_post_message, http_redirect_message,
-make_soap_enveloped_saml_thingy), Entity.apply_binding / Entity.unravel, HTTPBase.use_http_artifact,
-saml2.soap.parse_soap_enveloped_saml_thingy, saml2.entity.create_artifact /
+make_soap_enveloped_saml_thingy with and without header_parts), Entity.apply_binding / Entity.unravel,
+HTTPBase.use_http_artifact / use_http_uri / use_soap, saml2.soap.parse_soap_enveloped_saml_thingy,
+saml2.soap.class_instances_from_soap_enveloped_saml_thingies (Entity.parse_soap_message), saml2.entity.create_artifact /
 Entity.artifact2destination, and (exact-output comparison of the Lean codecs) base64, html.escape,
 urllib.parse.quote_plus / urlencode / parse_qsl / parse_qs / urlsplit.
 
@@ -29,10 +30,15 @@ DRIVER = "Drivers/C14.lean"
 CORRESPONDENCE = ("Drivers/C14.lean vs base64/html/urllib codecs, pack.http_form_post_message, "
                   "pack.http_redirect_message, HTTPBase.use_http_artifact, Entity.apply_binding/unravel, "
                   "pack.make_soap_enveloped_saml_thingy + soap.parse_soap_enveloped_saml_thingy, "
+                  "make_soap_enveloped_saml_thingy(…, header_parts) + soap.class_instances_from_soap_enveloped_saml_thingies, "
+                  "HTTPBase.use_http_uri, "
                   "create_artifact/artifact2destination")
 RULE = ("codecs: exact output on random + adversarial strings; bindings: library-made and independently "
         "rendered messages (with/without XML declaration, line breaks, unicode, long) x RelayState/destination "
-        "strings with quotes, angle brackets, ampersands, '?', '#', non-ASCII, existing query strings; artifact "
+        "strings with quotes, angle brackets, ampersands, '?', '#', non-ASCII, existing query strings; message "
+        "instances handed to the packers; SOAP envelopes with 0..5 header blocks of listed and unlisted classes, "
+        "foreign envelopes with several Header/Body parts; URI binding both forms; unravel for every binding "
+        "incl. unknown ones; artifact handles as text; artifact "
         "indexes 0..255 exhaustively + out-of-range, all 65536 index fields on the decoding side; "
         "non-trivial = case not refused at input level; distinct = distinct case JSON")
 TRUSTED = [
@@ -534,8 +540,13 @@ def gen_cases(rng, tier):
         if typ not in ("SAMLRequest", "SAMLResponse") and rng.random() < 0.7:
             msg = "".join(ch for ch in msg if ord(ch) < 128)
         via = "apply_binding" if typ in ("SAMLRequest", "SAMLResponse") and rng.random() < 0.5 else "pack"
-        yield {"op": "post", "typ": typ, "msg": msg, "loc": gen_dest(rng), "rs": gen_relay(rng), "via": via,
-               "inflate": [inflate_row(u8(msg))]}
+        case = {"op": "post", "typ": typ, "msg": msg, "loc": gen_dest(rng), "rs": gen_relay(rng), "via": via}
+        if typ in ("SAMLRequest", "SAMLResponse") and rng.randrange(12) == 0:
+            _as_message_object(case, rng)        # the packer is handed the message INSTANCE: str(message)
+        elif GEN_BYTES_MESSAGE and typ in ("SAMLRequest", "SAMLResponse") and rng.randrange(12) == 0:
+            case["msg_bytes"] = True
+        case["inflate"] = [inflate_row(u8(case["msg"]))]
+        yield case
     # receivers: payloads that were / were not deflated by the sender, and damaged ones
     for i in range(n(300, 2000)):
         msg = gen_wire_message(rng, "quick")
@@ -568,6 +579,16 @@ def gen_cases(rng, tier):
         if expect is not None:
             case["expect"] = hx(expect)
         yield case
+    # the bindings that hand the text on as it is (URI, None) and bindings unravel does not know
+    for i in range(n(60, 400)):
+        txt = gen_wire_message(rng, "quick") if rng.random() < 0.7 else gen_text(rng)
+        binding = rng.choice(["uri", "none", "unknown"])
+        case = {"op": "unravel", "binding": binding, "txt": txt, "inflate": []}
+        if binding == "unknown":
+            case["urn"] = rng.choice(UNKNOWN_BINDINGS)
+        else:
+            case["expect"] = hx(u8(txt))
+        yield case
 
     # ---- HTTP-Redirect
     for i in range(n(600, 3000)):
@@ -578,8 +599,39 @@ def gen_cases(rng, tier):
             msg = base64.b64encode(bytes(rng.randrange(256) for _ in range(44))).decode()
         loc = gen_dest(rng)
         via = "apply_binding" if typ in ("SAMLRequest", "SAMLResponse") and rng.random() < 0.5 else "pack"
-        yield {"op": "redirect", "typ": typ, "msg": msg, "loc": loc, "rs": gen_relay(rng), "via": via,
-               "deflated": hx(zlib.compress(u8(msg))[2:-4])}
+        case = {"op": "redirect", "typ": typ, "msg": msg, "loc": loc, "rs": gen_relay(rng), "via": via}
+        if typ in ("SAMLRequest", "SAMLResponse") and rng.randrange(12) == 0:
+            _as_message_object(case, rng)        # f"{message}" of a message instance
+        case["deflated"] = hx(zlib.compress(u8(case["msg"]))[2:-4])
+        yield case
+    # ---- URI binding (HTTPBase.use_http_uri, directly and through apply_binding(BINDING_URI))
+    for i in range(n(300, 2000)):
+        c = rng.randrange(20)
+        typ = "SAMLRequest" if c < 9 else "SAMLResponse" if c < 18 else rng.choice(["SAMLart", "Other", ""])
+        if typ == "SAMLResponse":
+            k = rng.randrange(6)
+            if k == 0:
+                msg, _ = library_message(rng)
+            elif k == 1:
+                msg = gen_wire_message(rng, "quick")
+            elif k == 2:        # one line, no surrounding white space: must arrive whole
+                msg = _soap_spliced(gen_message(rng, "quick")[0]).replace("\n", " ").strip() or "<a/>"
+            elif k == 3:
+                msg = rng.choice(LEAD + ["\x1c", "\x85", "\u2003", "\u3000"]) + render_tree(gen_tree(rng, 2)).replace("\n", "") + \
+                    rng.choice(["", " ", "\t", "\xa0", "\u2028", "\x1f "])
+            elif k == 4:        # declaration, line break, body of one or several lines
+                msg = rng.choice(DECLS[1:]) + "\n" + render_tree(gen_tree(rng, 2)).replace("><", rng.choice(["><", ">\n<"]), 1) + \
+                    rng.choice(["", "\n", "\n\n"])
+            else:
+                msg = rng.choice(["", "\n", "a\n", "\nb", "a\nb\nc", " ", "\r\n<a/>", "<a/>\r"])
+        else:
+            k = rng.randrange(6)
+            msg = ("id-" + "".join(rng.choice(string.hexdigits) for _ in range(32)) if k < 2 else gen_text(rng) if k < 4
+                   else gen_long(rng) if k == 4 else rng.choice(["", "a\nb", "x y", "é", "&ID=evil", "a=b&RelayState=evil"]))
+        loc = gen_dest(rng) if rng.random() < 0.4 else rng.choice(["https://idp.c14.example/uri", "http://localhost:8088/id",
+                                                                   "https://exämple.c14.example/söö", "/relative/path", ""])
+        via = "apply_binding" if typ in ("SAMLRequest", "SAMLResponse") and rng.random() < 0.4 else "use_http_uri"
+        yield {"op": "uri", "typ": typ, "msg": msg, "loc": loc, "rs": gen_relay(rng), "via": via}
     # ---- artifact URL
     for i in range(n(250, 1500)):
         art = base64.b64encode(b"\x00\x04" + bytes(rng.randrange(256) for _ in range(42))).decode()
@@ -649,6 +701,53 @@ def gen_cases(rng, tier):
                        "parts": [{"kind": k, "children": [cstr(x) for x in kids]} if k != "other" else {"kind": "other"}
                                  for k, kids in parts]}}
 
+    # ---- SOAP with header blocks (ECP / PAOS): wrap with header_parts, open with
+    #      class_instances_from_soap_enveloped_saml_thingies
+    for i in range(n(160, 1500)):
+        nh = rng.choice([0, 1, 1, 2, 2, 3, 5])
+        spec = {"kind": rng.choice([0, 1, 2, 3, 3, 4, 5, 6]), "seed": rng.randrange(10 ** 9),
+                "hdr": [rng.choice(HDR_KINDS if rng.randrange(6) else HDR_KINDS_FOREIGN) for _ in range(nh)],
+                "wrap": rng.choice(["pack", "pack", "pack_str", "apply_binding", "apply_binding_paos"]),
+                "mods": rng.choice(["entity", "ecp"])}
+        m, headers = _soap_parts(spec)
+        tree = cstr(canon_el(ET.fromstring(m.to_string())))
+        hs = [cstr(canon_el(ET.fromstring(h.to_string()))) for h in headers]
+        yield {"op": "soap_open", "parts": spec, "tree": tree, "headers": hs,
+               "unknown": sorted({x for x in [tree] + hs if not _known_class(json.loads(x)[0], spec["mods"])})}
+    # envelopes made elsewhere: several Header / Body parts, foreign parts, empty parts, children of
+    # listed and unlisted classes, elements without namespace
+    for i in range(n(160, 1500)):
+        root = rng.choice(["{%s}Envelope" % SOAPENV] * 8 + ["{%s}envelope" % SOAPENV, "{urn:c14:ext}Envelope", "Envelope"])
+        mods = rng.choice(["entity", "ecp"])
+        PREFIXES[SOAPENV] = "soapenv"
+        parts = []
+        for _ in range(rng.choice([0, 1, 2, 2, 2, 3, 3, 4])):
+            kind = rng.choice(["body", "body", "header", "header", "other"])
+            kids = []
+            for _ in range(rng.choice([0, 1, 1, 1, 2, 3])):
+                if rng.randrange(5):
+                    m, hh = _soap_parts({"kind": rng.choice([0, 1, 2, 3]), "seed": rng.randrange(10 ** 9),
+                                         "hdr": [rng.choice(HDR_KINDS)], "wrap": "pack", "mods": mods})
+                    el = m if kind == "body" and rng.randrange(4) else hh[0]
+                    kids.append(canon_el(ET.fromstring(el.to_string())))
+                else:
+                    k = gen_tree(rng, 3)
+                    k[4] = ""
+                    kids.append(k)
+            parts.append((kind, kids))
+        ptag = {"body": "{%s}Body" % SOAPENV, "header": "{%s}Header" % SOAPENV, "other": "{urn:c14:ext}Other"}
+        tree = [root, [], "", [[ptag[k], [], "", kids, ""] for k, kids in parts], ""]
+        if rng.randrange(16) == 0:       # not XML at all: cut short, or a second root, or text
+            xml = render_tree(tree)
+            yield {"op": "soap_open_foreign", "mods": mods, "unknown": [], "env": None,
+                   "envelope": rng.choice([xml[: rng.randrange(1, len(xml))], xml + "<x/>", "not xml", ""])}
+            continue
+        yield {"op": "soap_open_foreign", "envelope": render_tree(tree), "mods": mods,
+               "unknown": sorted({cstr(k) for _, kids in parts for k in kids if not _known_class(k[0], mods)}),
+               "env": {"tag_ok": root == "{%s}Envelope" % SOAPENV,
+                       "parts": [{"kind": k, "children": [cstr(x) for x in kids]} if k != "other" else {"kind": "other"}
+                                 for k, kids in parts]}}
+
     # ---- artifacts
     stores = [gen_store(rng) for _ in range(n(2, 6))]
     fixed = [{"entity_id": "https://idp0.c14.example/idp",
@@ -672,8 +771,16 @@ def gen_cases(rng, tier):
         own = [int(e[0]) for en in ents if en["entity_id"] == eid for e in en["eps"] if e[0].isdigit()]
         c = rng.randrange(10)
         idx = rng.choice(own) if own and c < 5 else rng.randrange(256) if c < 7 else rng.choice([-1, 256, 257, 300, 4660, 65535, 65536, -255, 10 ** 6])
-        yield {"op": "artifact", "entity_id": eid, "handle": hx(bytes(rng.randrange(256) for _ in range(rng.choice([20, 20, 0, 5, 33])))),
-               "idx": idx, "sourceid": hashlib.sha1(eid.encode("utf-8")).hexdigest(), "ents": ents, "store": store_json(ents)}
+        case = {"op": "artifact", "entity_id": eid, "handle": hx(bytes(rng.randrange(256) for _ in range(rng.choice([20, 20, 0, 5, 33])))),
+                "idx": idx, "sourceid": hashlib.sha1(eid.encode("utf-8")).hexdigest(), "ents": ents, "store": store_json(ents)}
+        k = rng.randrange(5)
+        if k == 0:          # the handle given as text (create_artifact encodes it as UTF-8)
+            case["handle"] = hx(u8(rng.choice([hashlib.sha1(str(i).encode()).hexdigest()[:20], gen_text(rng, 20), "hándle-中-" + str(i), ""])
+                                   .encode("utf-8", "replace").decode("utf-8")))
+            case["handle_as_str"] = True
+        elif k == 1:        # the entity id given as bytes
+            case["eid_as_bytes"] = True
+        yield case
     for i in range(n(200, 2000)):
         ents = rng.choice(stores)
         eid = rng.choice(ents)["entity_id"]
@@ -712,6 +819,101 @@ def _soap_spliced(thingy):
         if end != -1:
             thingy = thingy[end + 2:].lstrip()
     return thingy
+
+
+PAOS_NS = "urn:liberty:paos:2003-08"
+ECP_NS = "urn:oasis:names:tc:SAML:2.0:profiles:SSO:ecp"
+PREFIXES.update({PAOS_NS: "paos", ECP_NS: "ecp", "urn:ietf:params:xml:ns:samlec": "samlec"})
+UNKNOWN_BINDINGS = ["urn:oasis:names:tc:SAML:2.0:bindings:PAOS", "urn:oasis:names:tc:SAML:2.0:bindings:HTTP-POST-SimpleSign",
+                    "urn:c14:binding", "", "HTTP-POST", "urn:oasis:names:tc:SAML:2.0:bindings:http-post"]
+HDR_KINDS = ["paos_request", "ecp_relay", "ecp_request", "ecp_response", "paos_response"]
+HDR_KINDS_FOREIGN = ["saml_issuer", "samlec_key"]      # classes outside one / both of the receivers' module lists
+
+# set to True to hand the POST / redirect packers the message as BYTES (what to_string() returns):
+# pack.http_form_post_message turns that into the text "b'...'" (str(bytes)) -- reported, not generated
+GEN_BYTES_MESSAGE = True
+
+
+def _module_list(mods):
+    from saml2 import samlp
+    from saml2.profile import ecp, paos, samlec
+
+    # Entity.parse_soap_message / saml2.ecp.handle_ecp_authn_response, Base.parse_ecp_authn_response
+    return [paos, ecp, samlp, samlec] if mods == "entity" else [paos, ecp, samlp]
+
+
+def _known_class(clark, mods):
+    """Does one of the receiver's schema modules list this element (namespace + local name)?"""
+    if not clark.startswith("{"):
+        return False
+    ns, local = clark[1:].split("}", 1)
+    return any(m.NAMESPACE == ns and local in m.ELEMENT_BY_TAG for m in _module_list(mods))
+
+
+def _soap_parts(spec):
+    """(message instance, header block instances) for the header-carrying SOAP cases."""
+    import random
+
+    from saml2 import saml, samlp
+    from saml2.profile import ecp, paos, samlec
+
+    r = random.Random(spec["seed"])
+    kind = spec["kind"]
+    if kind <= 3:
+        m, _ = _soap_object({"kind": kind, "seed": spec["seed"], "headers": 0})
+    elif kind == 4:     # a full response with an assertion (what an ECP client receives)
+        issuer = saml.Issuer(text="https://idp.c14.example/" + gen_xml_text(r, 8))
+        avs = [saml.AttributeValue(text=gen_xml_text(r, 12)) for _ in range(r.randint(1, 3))]
+        a = saml.Assertion(id="a-1", version="2.0", issue_instant="2026-01-01T00:00:00Z", issuer=issuer,
+                           attribute_statement=[saml.AttributeStatement(attribute=[saml.Attribute(name="urn:oid:2.5.4.4", attribute_value=avs)])])
+        m = samlp.Response(id="id-5", version="2.0", issue_instant="2026-01-01T00:00:00Z", in_response_to="id-1", issuer=issuer,
+                           assertion=[a], status=samlp.Status(status_code=samlp.StatusCode(value=samlp.STATUS_SUCCESS)))
+    elif kind == 5:     # not a protocol message: no module of the receiver lists it
+        m = saml.Assertion(id="a-2", version="2.0", issue_instant="2026-01-01T00:00:00Z",
+                           issuer=saml.Issuer(text="https://idp.c14.example/" + gen_xml_text(r, 8)))
+    else:
+        m = samlp.LogoutResponse(id="id-6", version="2.0", issue_instant="2026-01-01T00:00:00Z", in_response_to="id-1",
+                                 status=samlp.Status(status_code=samlp.StatusCode(value=samlp.STATUS_SUCCESS),
+                                                     status_message=samlp.StatusMessage(text=gen_xml_text(r, 12))))
+    actor = "http://schemas.xmlsoap.org/soap/actor/next"
+    headers = []
+    for hk in spec["hdr"]:
+        if hk == "paos_request":
+            h = paos.Request(must_understand="1", actor=actor, service=ECP_NS, message_id=r.choice([None, "m-" + gen_xml_text(r, 6)]),
+                             response_consumer_url="https://sp.c14.example/paos?x=" + gen_xml_text(r, 5))
+        elif hk == "ecp_relay":     # the relay state of the ECP profile travels as a header block
+            txt = gen_xml_text(r, 10) if r.randrange(4) else gen_xml_text(r, r.choice(LENGTHS[:7]))
+            h = ecp.RelayState(must_understand="1", actor=actor, text=txt)
+        elif hk == "ecp_request":
+            h = ecp.Request(must_understand="1", actor=actor, provider_name=r.choice([None, gen_xml_text(r, 8)]),
+                            issuer=saml.Issuer(text="https://sp.c14.example/" + gen_xml_text(r, 8)))
+        elif hk == "ecp_response":
+            h = ecp.Response(must_understand="1", actor=actor, assertion_consumer_service_url="https://sp.c14.example/acs?" + gen_xml_text(r, 6))
+        elif hk == "paos_response":
+            h = paos.Response(must_understand="1", actor=actor, ref_to_message_id="m-" + gen_xml_text(r, 6))
+        elif hk == "saml_issuer":
+            h = saml.Issuer(text=gen_xml_text(r, 8))
+        else:
+            h = samlec.GeneratedKey(text=base64.b64encode(bytes(r.randrange(256) for _ in range(8))).decode())
+        headers.append(h)
+    return m, headers
+
+
+def _as_message_object(case, rng):
+    """Make `case` hand the packer a message INSTANCE; `msg` is the text the receiver must get
+    (the instance's own serialisation, as an independent parser reads it back)."""
+    spec = {"kind": rng.randrange(4), "seed": rng.randrange(10 ** 9), "headers": 0}
+    m, _ = _soap_object(spec)
+    case["msg_obj"] = spec
+    case["msg"] = m.to_string().decode("utf-8")
+
+
+def _message_arg(case):
+    if case.get("msg_obj"):
+        return _soap_object(case["msg_obj"])[0]
+    if case.get("msg_bytes"):
+        return u8(case["msg"])
+    return case["msg"]
 
 
 MSGTYPES = {
@@ -866,6 +1068,7 @@ def run_impl(case):
     from saml2.httpbase import HTTPBase
 
     op = case["op"]
+    message = _message_arg(case) if op in ("post", "redirect") else None
     if op == "b64enc":
         return {"enc": hx(base64.b64encode(bytes.fromhex(case["data"])))}
     if op == "b64dec":
@@ -893,10 +1096,10 @@ def run_impl(case):
         typ = case["typ"]
         ent = _entity()
         if case["via"] == "apply_binding":
-            ok, info = _try(lambda: ent.apply_binding(BINDING_HTTP_POST, case["msg"], case["loc"], case["rs"],
+            ok, info = _try(lambda: ent.apply_binding(BINDING_HTTP_POST, message, case["loc"], case["rs"],
                                                        response=(typ == "SAMLResponse")))
         else:
-            ok, info = _try(lambda: pack.http_form_post_message(case["msg"], case["loc"], case["rs"], typ))
+            ok, info = _try(lambda: pack.http_form_post_message(message, case["loc"], case["rs"], typ))
         if not ok:       # legitimately: UnicodeDecodeError for a non-SAML parameter name with a non-ASCII message
             return {"html": None}
         page = info["data"]
@@ -916,17 +1119,36 @@ def run_impl(case):
             out["method"] = info.get("method")
         return out
     if op == "unravel":
-        b = {"post": BINDING_HTTP_POST, "redirect": BINDING_HTTP_REDIRECT, "artifact": BINDING_HTTP_ARTIFACT}[case["binding"]]
-        return {"out": _unravel(case["txt"], b)}
+        from saml2 import BINDING_URI
+        b = {"post": BINDING_HTTP_POST, "redirect": BINDING_HTTP_REDIRECT, "artifact": BINDING_HTTP_ARTIFACT,
+             "uri": BINDING_URI, "none": None, "unknown": case.get("urn")}[case["binding"]]
+        return {"out": _unravel(case["txt"], b)}        # legitimately raised: UnravelError, UnknownBinding
+
+    if op == "uri":
+        from saml2 import BINDING_URI
+        from saml2.entity import Entity
+        typ = case["typ"]
+        if case["via"] == "apply_binding":
+            ent = _entity()
+            ok, info = _try(lambda: ent.apply_binding(BINDING_URI, case["msg"], case["loc"], case["rs"], response=(typ == "SAMLResponse")))
+        else:
+            ok, info = _try(lambda: HTTPBase.use_http_uri(case["msg"], typ, case["loc"], case["rs"]))   # legitimately: NotImplementedError
+        if not ok:
+            return {"r": None}
+        if "url" in info:
+            return {"r": "request", "url": hx(u8(info["url"])), "params": _params(info["url"])}
+        data = info["data"]
+        ok, back = _try(lambda: Entity.unravel(data, BINDING_URI))
+        return {"r": "response", "data": data, "unraveled": back if ok and isinstance(back, str) else None}
 
     if op == "redirect":
         typ = case["typ"]
         ent = _entity()
         if case["via"] == "apply_binding":
-            ok, info = _try(lambda: ent.apply_binding(BINDING_HTTP_REDIRECT, case["msg"], case["loc"], case["rs"],
+            ok, info = _try(lambda: ent.apply_binding(BINDING_HTTP_REDIRECT, message, case["loc"], case["rs"],
                                                        response=(typ == "SAMLResponse"), sign=False))
         else:
-            ok, info = _try(lambda: pack.http_redirect_message(case["msg"], case["loc"], case["rs"], typ))
+            ok, info = _try(lambda: pack.http_redirect_message(message, case["loc"], case["rs"], typ))
         if not ok:       # legitimately: a bare Exception for an unknown message type
             return {"url": None}
         url = dict(info["headers"])["Location"]
@@ -983,9 +1205,32 @@ def run_impl(case):
     if op == "soap_unwrap":
         return {"out": _unwrap(case["envelope"], case["expected"])}
 
+    if op == "soap_open":
+        from saml2 import BINDING_PAOS
+        spec = case["parts"]
+        m, headers = _soap_parts(spec)
+        wrap = spec["wrap"]
+        if wrap == "pack":
+            ok, data = _try(lambda: pack.make_soap_enveloped_saml_thingy(m, headers or None))
+        elif wrap == "pack_str":
+            text = m.to_string().decode("utf-8")
+            ok, data = _try(lambda: pack.make_soap_enveloped_saml_thingy(text, headers or None))
+        else:
+            ent = _entity()
+            b = BINDING_PAOS if wrap == "apply_binding_paos" else BINDING_SOAP
+            ok, data = _try(lambda: ent.apply_binding(b, m, "https://idp.c14.example/soap", sign=False, soap_headers=headers or None)["data"])
+        if not ok:
+            return {"env": None, "opened": {"r": "refused"}}
+        return {"env": _envelope(data), "opened": _open(data, spec["mods"])}
+    if op == "soap_open_foreign":
+        return {"opened": _open(case["envelope"], case["mods"])}
+
     if op == "artifact":
         handle = bytes.fromhex(case["handle"])
-        ok, art = _try(lambda: create_artifact(case["entity_id"], handle, case["idx"]))    # legitimately: ValueError (index range)
+        if case.get("handle_as_str"):
+            handle = handle.decode("utf-8")
+        eid = u8(case["entity_id"]) if case.get("eid_as_bytes") else case["entity_id"]
+        ok, art = _try(lambda: create_artifact(eid, handle, case["idx"]))    # legitimately: ValueError (index range)
         if not ok or not isinstance(art, str):
             return {"art": None, "dest": None}
         sp = _sp_with(case["ents"])
@@ -1063,6 +1308,28 @@ def _envelope(data):
     return {"tag_ok": root.tag == "{%s}Envelope" % SOAPENV, "parts": parts}
 
 
+def _open(data, mods):
+    """What the header-aware receiver makes of an envelope: every returned instance serialised by
+    its own class and read back by an independent parser."""
+    from saml2 import soap
+    from saml2.entity import Entity
+
+    # legitimately raised: XmlParseError, ValueError (root tag), IndexError (empty Body), AttributeError (no namespace),
+    # bare Exception (no items / unknown class)
+    if mods == "entity":
+        ok, r = _try(lambda: Entity.parse_soap_message(data))
+    else:
+        modules = _module_list(mods)
+        ok, r = _try(lambda: soap.class_instances_from_soap_enveloped_saml_thingies(data, modules))
+    if not ok:
+        return {"r": "refused"}
+
+    def ser(inst):
+        ok, txt = _try(lambda: inst.to_string())
+        return _canon_bytes(txt) if ok else "<unserialisable>"
+    return {"r": "ok", "header": [ser(h) for h in r["header"]], "body": ser(r["body"]) if r["body"] is not None else None}
+
+
 def _canon_bytes(out):
     """Canonical tree of what an unwrapper returned (text that is not XML stays visible as such)."""
     try:
@@ -1128,6 +1395,7 @@ def neighbours(case, rng):
         body = _soap_spliced(case["msg"]) or "<a/>"
         for lead in LEAD + ["", '<?xml version="1.0"?>']:
             c = dict(case)
+            c.pop("msg_obj", None)
             c["msg"] = lead + body
             if "inflate" in c:
                 c["inflate"] = [inflate_row(u8(c["msg"]))]
@@ -1161,6 +1429,8 @@ def shrink(case):
             # long values: try the lengths around the usual limits first, then halves, then single characters
             for cand in [v[:k] for k in LENGTHS if k < len(v)][:4] + [v[: len(v) // 2], v[len(v) // 2:], v[1:], v[:-1]]:
                 if cand != v:
+                    if k == "msg" and case.get("msg_obj"):
+                        continue             # the text is the instance's own serialisation
                     c = dict(case)
                     c[k] = cand
                     if k == "msg":
